@@ -301,3 +301,83 @@ func (h *hmapType) checkClear() {
 		}
 	}
 }
+
+// checkNoBlindReject: a membership question is answered by looking. A Contains* method does not
+// answer "no" on the strength of a comparison of what it was asked about with a field or constant of
+// the collection (a "null" marker, a reserved key) before it has scanned anything — unless the
+// insertion methods turn the same value away with the same comparison, it may well be stored.
+func (h *hmapType) checkNoBlindReject() {
+	putTexts := map[string]bool{}
+	for _, fi := range h.p.MethodsOf(h.t) {
+		if fi.Decl.Body == nil {
+			continue
+		}
+		n := strings.ToLower(fi.Obj.Name())
+		if !strings.HasPrefix(n, "put") && !strings.HasPrefix(n, "add") {
+			continue
+		}
+		ast.Inspect(fi.Decl.Body, func(m ast.Node) bool {
+			if ifs, ok := m.(*ast.IfStmt); ok {
+				putTexts[stripSpaces(types.ExprString(ifs.Cond))] = true
+			}
+			return true
+		})
+	}
+	for _, fi := range h.p.MethodsOf(h.t) {
+		if fi.Decl.Body == nil || !strings.HasPrefix(fi.Obj.Name(), "Contains") || fi.Decl.Type.Params.NumFields() != 1 || len(fi.Decl.Type.Params.List[0].Names) != 1 {
+			continue
+		}
+		info := fi.Pkg.TypesInfo
+		param := info.Defs[fi.Decl.Type.Params.List[0].Names[0]]
+		rn := recvName(fi)
+		bad := ""
+		for _, st := range fi.Decl.Body.List {
+			if _, isLoop := st.(*ast.ForStmt); isLoop {
+				break
+			}
+			if _, isLoop := st.(*ast.RangeStmt); isLoop {
+				break
+			}
+			ifs, ok := st.(*ast.IfStmt)
+			if !ok || len(ifs.Body.List) == 0 {
+				continue
+			}
+			rs, ok := ifs.Body.List[len(ifs.Body.List)-1].(*ast.ReturnStmt)
+			if !ok || len(rs.Results) != 1 {
+				continue
+			}
+			if tv, ok := info.Types[rs.Results[0]]; !ok || tv.Value == nil || tv.Value.ExactString() != "false" {
+				continue
+			}
+			// an atom of the condition that compares the parameter with a field of the collection or a constant
+			ast.Inspect(ifs.Cond, func(m ast.Node) bool {
+				be, ok := m.(*ast.BinaryExpr)
+				if !ok || (be.Op != token.EQL && be.Op != token.NEQ) {
+					return true
+				}
+				for _, pr := range [][2]ast.Expr{{be.X, be.Y}, {be.Y, be.X}} {
+					id, ok := ast.Unparen(pr[0]).(*ast.Ident)
+					if !ok || info.ObjectOf(id) != param {
+						continue
+					}
+					o := ast.Unparen(pr[1])
+					if oid, ok := o.(*ast.Ident); ok && oid.Name == "nil" {
+						continue
+					}
+					isField := false
+					if sel, ok := o.(*ast.SelectorExpr); ok {
+						if rid, ok := ast.Unparen(sel.X).(*ast.Ident); ok && rid.Name == rn {
+							isField = true
+						}
+					}
+					_, isConst := constIntOf(info, o)
+					if (isField || isConst) && !putTexts[stripSpaces(types.ExprString(be))] && !putTexts[stripSpaces(types.ExprString(ifs.Cond))] {
+						bad = "answers false at " + h.p.Pos(rs.Pos()) + " because " + types.ExprString(be) + ", without looking: the insertion methods store such a value like any other, so a stored value is reported as absent"
+					}
+				}
+				return true
+			})
+		}
+		h.r.Check(bad == "", h.pre+".key-domain", h.name+"."+fi.Obj.Name()+" looks before it answers", h.p.Pos(fi.Decl.Pos()), "no negative answer from a comparison with a marker of the collection", bad)
+	}
+}
